@@ -12,6 +12,10 @@ G1 == << <<1, 1, 1>>, <<1, 1, 2>> >>
 G2 == << <<1, 1, 1, 1>>, <<1, 2, 2>> >>
 G3 == << <<1, 1>>, <<1, 1, 2, 2>> >>
 TwoLeaders == {G1, G2, G3}
+QuickTwo == {G1, G2}
+OnlyG1 == {G1}
+OnlyG2 == {G2}
+OnlyG3 == {G3}
 Only1 == {F1}
 Only2 == {F2}
 Only3 == {F3}
